@@ -99,8 +99,12 @@ def attach(mc, intervals, logs=None):
     return logs
 
 
-def execute(mc, plan, is_mc, rebuild=None):
-    for call in plan:
+def execute(mc, plan, is_mc, rebuild=None, lazy=False):
+    """lazy: consecutive irun calls are all CREATED first (itertools.chain(sim.irun(a), sim.irun(b)), a list of pieces drained
+    in order) and then iterated one after the other -- each generator starts working when it is first advanced"""
+    i = 0
+    while i < len(plan):
+        call = plan[i]
         n, entry = call["n"], call["entry"]
         if entry == "rebuild":
             mc = rebuild(mc)
@@ -110,10 +114,18 @@ def execute(mc, plan, is_mc, rebuild=None):
             for _ in mc.srun(n):
                 pass
         else:
-            for st in mc.irun(n):
-                if is_mc:
-                    for _ in st:
-                        pass
+            j = i
+            gens = []
+            while j < len(plan) and plan[j]["entry"] == "irun" and (lazy or j == i):
+                gens.append(mc.irun(plan[j]["n"]))
+                j += 1
+            for gen in gens:
+                for st in gen:
+                    if is_mc:
+                        for _ in st:
+                            pass
+            i = j - 1
+        i += 1
     return mc
 
 
@@ -184,7 +196,7 @@ def run(tier: str) -> int:
                 return new
 
             with watchdog(5):  # (a plan of at most 6 steps takes milliseconds)
-                mc = execute(mc, c["plan"], is_mc, rebuild)
+                mc = execute(mc, c["plan"], is_mc, rebuild, lazy=bool(ci % 2))
                 ref, rfiles = build(kind, seed, log_iv, with_log)
                 rlogs = attach(ref, obs)
                 ref.run(c["total"])
